@@ -124,3 +124,10 @@ verus_unit("proofserdev", "proofserdev", ["C12", "C03"], [
     "<Proof as Serializable>::write_into (appends the component encodings in the documented order: context, number of unique queries, commitments, one Queries per trace segment, constraint queries, OOD frame, FRI proof, proof-of-work nonce, optional GKR proof)",
     "<Proof as Deserializable>::read_from (decodes them in the same order; reads exactly as many trace-query sets as the decoded context has trace segments; Err exactly when a component decoder fails)",
     "theorem_proof_roundtrip (specification level: for every proof whose number of trace-query sets equals its context's number of trace segments, decoding what write_into appended returns the same proof and leaves exactly the following bytes - relative to the component round trips, which are hypotheses here and obligations of the Kani / Verus units of C12 for the concrete component types)"])
+
+
+verus_unit("containerv", "containerv", ["C12", "C03"], [
+    "<Queries as Serializable>::write_into / <Queries as Deserializable>::read_from (two byte vectors behind 32-bit length prefixes, every content and length below 2^32)",
+    "<OodFrame as Serializable>::write_into / <OodFrame as Deserializable>::read_from (three byte vectors behind 16-bit length prefixes, every content and length below 2^16)",
+    "<Commitments as Serializable>::write_into / <Commitments as Deserializable>::read_from (one byte vector behind a 16-bit prefix; the writer's assertion is the documented pre-condition)",
+    "round-trip theorems for the three containers (relative to the round trip of the fixed-width prefixes, a hypothesis here and a complete Kani contract of C12 for the real readers)"])
